@@ -1,6 +1,7 @@
 package rules
 
 import (
+	"go/types"
 	"fmt"
 	"go/token"
 	"strings"
@@ -85,6 +86,9 @@ func runC05(e *Env) {
 						cond, neg := core.StripNot(i.Cond)
 						cmp, isCmp := core.AsCmp(cond)
 						if !isCmp || (cmp.Op != token.EQL && cmp.Op != token.NEQ) || !isReqType(cmp.X) {
+							if typeOnly(cond, isReqType, 0) {
+								return 2 // decided by the request's type alone through a table: not a path this rule judges
+							}
 							return 0
 						}
 						k, isK := core.ConstInt(cmp.Y)
@@ -225,12 +229,11 @@ func runC05(e *Env) {
 			for _, c := range core.Calls(f, func(n string, _ ssa.CallInstruction) bool {
 				return strings.HasSuffix(n, "MessageCache.Store") || strings.HasSuffix(n, "MessageCache.Load")
 			}) {
-				key := core.Arg(c, 1)
-				if kc, isCall := key.(*ssa.Call); isCall && core.CalleeName(kc) == "strconv.Itoa" && core.Unwrap(core.Arg(kc, 0)) == ssa.Value(f.Params[1]) {
+				if keyFromOnly(core.Arg(c, 1), f.Params[1], 0) {
 					ok = true
 				}
 			}
-			e.R.Check(ok, "C05.R4", q+":key=Itoa(mid-param)", e.fpos(f), "the cache key is strconv.Itoa of the message-ID parameter", "the cache key does not derive from the message-ID parameter alone")
+			e.R.Check(ok, "C05.R4", q+":key=Itoa(mid-param)", e.fpos(f), "the cache key is an injective rendering (strconv.Itoa / FormatInt base 10) of the message-ID parameter alone", "the cache key does not derive from the message-ID parameter alone")
 		}
 	}
 	if e.want("C05.R5") {
@@ -389,14 +392,16 @@ func runC06(e *Env) {
 		e.R.Check(ok, "C06.R5", "udp/client.Conn.acquireOutstandingInteraction:balance", "-", "Acquire(n), Release(n−1), Release(1) sum to zero", why)
 	}
 	if e.want("C06.R6") {
-		if f := e.fn("C06.R6", "udp/client.Conn.waitForAcknowledge"); f != nil {
-			ws := core.WaitsOf(f)
-			ok := len(ws) == 1 && ws[0].Blocking && ws[0].HasParamChan && ws[0].HasReqCtx && ws[0].HasConnCtx
-			d := ""
-			if len(ws) == 1 {
-				d = ws[0].String()
-			}
-			e.R.Check(ok, "C06.R6", "udp/client.Conn.waitForAcknowledge:exits", e.fpos(f), "select on {ack channel, request context, connection context}", "the wait for the acknowledgement lacks an exit: "+d)
+		aws := udpAckWaits(e)
+		if len(aws) == 0 {
+			e.R.Undecided("C06.R6", "udp/client:ack-wait", "-", "no blocking select that waits on the acknowledgement signal found in udp/client")
+		}
+		for _, aw := range aws {
+			f := aw.root
+			ws := []core.Wait{aw.w}
+			ok := ws[0].Blocking && ws[0].HasReqCtx && ws[0].HasConnCtx
+			d := ws[0].String()
+			e.R.Check(ok, "C06.R6", core.FnName(f)+":ack-wait-exits", e.pos(aw.w.Instr), "select on {ack channel, request context, connection context}", "the wait for the acknowledgement lacks an exit: "+d)
 		}
 	}
 }
@@ -847,4 +852,128 @@ func c06ParamChain(e *Env, chk *ssa.Function) {
 			e.R.Check(ok, rule, "udp/client.Conn.checkMidHandlerContainer:passes "+l.what, e.fpos(chk), shortType(l.callee)+" receives the pass's "+l.what, shortType(l.callee)+" is not given the "+l.what+" the pass read")
 		}
 	}
+}
+
+// keyFromOnly: v is the decimal rendering of p and of nothing else: strconv.Itoa(int(p)), strconv.FormatInt(int64(p), 10),
+// possibly through a helper analysed as part of the caller.
+func keyFromOnly(v ssa.Value, p ssa.Value, d int) bool {
+	if d > 4 {
+		return false
+	}
+	v = core.Unwrap(v)
+	if v == p {
+		return true
+	}
+	c, ok := v.(*ssa.Call)
+	if !ok {
+		r := core.Resolve(v)
+		return r != v && keyFromOnly(r, p, d+1)
+	}
+	switch core.CalleeName(c) {
+	case "strconv.Itoa":
+		return keyFromOnly(c.Call.Args[0], p, d+1)
+	case "strconv.FormatInt", "strconv.FormatUint":
+		base, isK := core.ConstInt(c.Call.Args[1])
+		return isK && base == 10 && keyFromOnly(c.Call.Args[0], p, d+1)
+	}
+	if h := core.AbsorbedCallee(c); h != nil {
+		for _, r := range core.ReturnsOf(h) {
+			if len(r.Results) != 1 {
+				return false
+			}
+			okRet := false
+			for k, hp := range h.Params {
+				if k < len(c.Call.Args) && keyFromOnly(core.RetVal(r, 0), hp, d+1) && keyFromOnly(c.Call.Args[k], p, d+1) {
+					okRet = true
+				}
+			}
+			if !okRet {
+				return false
+			}
+		}
+		return true
+	}
+	return false
+}
+
+// typeOnly: v is computed from the request's type and constants / package-level tables only.
+func typeOnly(v ssa.Value, isType func(ssa.Value) bool, d int) bool {
+	if d > 5 {
+		return false
+	}
+	v = core.Unwrap(v)
+	if isType(v) {
+		return true
+	}
+	switch x := v.(type) {
+	case *ssa.Const:
+		return true
+	case *ssa.Extract:
+		return typeOnly(x.Tuple, isType, d+1)
+	case *ssa.Lookup:
+		return globalLoad(x.X) && typeOnly(x.Index, isType, d+1)
+	case *ssa.BinOp:
+		return typeOnly(x.X, isType, d+1) && typeOnly(x.Y, isType, d+1)
+	case *ssa.UnOp:
+		if x.Op == token.MUL {
+			if ia, ok := x.X.(*ssa.IndexAddr); ok {
+				return globalLoad(ia.X) && typeOnly(ia.Index, isType, d+1)
+			}
+			r := core.Resolve(x)
+			return r != ssa.Value(x) && typeOnly(r, isType, d+1)
+		}
+		return typeOnly(x.X, isType, d+1)
+	}
+	return false
+}
+
+func globalLoad(v ssa.Value) bool {
+	if ld, ok := v.(*ssa.UnOp); ok && ld.Op == token.MUL {
+		_, isG := ld.X.(*ssa.Global)
+		return isG
+	}
+	_, isG := v.(*ssa.Global)
+	return isG
+}
+
+type ackWait struct {
+	root *ssa.Function
+	w    core.Wait
+}
+
+// udpAckWaits: the blocking selects of udp/client that wait for the acknowledgement signal – a receive from a chan struct{}
+// that is neither a context's Done channel nor a timer. Found by role, wherever the select lives (its own function, or inlined
+// into the writer).
+func udpAckWaits(e *Env) []ackWait {
+	var out []ackWait
+	seen := map[ssa.Instruction]bool{}
+	for _, f := range e.P.SrcFuncs(false) {
+		if !strings.HasPrefix(core.FnName(f), "udp/client.") {
+			continue
+		}
+		for _, w := range core.WaitsOf(f) {
+			if w.Kind != "select" || !w.Blocking || seen[w.Instr] {
+				continue
+			}
+			for _, c := range w.Cases {
+				if c.Dir != types.RecvOnly || c.Chan == nil {
+					continue
+				}
+				ct, ok := c.Chan.Type().Underlying().(*types.Chan)
+				if !ok {
+					continue
+				}
+				st, isStruct := ct.Elem().Underlying().(*types.Struct)
+				if !isStruct || st.NumFields() != 0 {
+					continue
+				}
+				if c.Class == "req-ctx" || c.Class == "conn-ctx" || c.Class == "ctx" || c.Class == "timer" || c.Class == "done" {
+					continue
+				}
+				seen[w.Instr] = true
+				out = append(out, ackWait{f, w})
+			}
+		}
+	}
+	return out
 }
